@@ -127,6 +127,10 @@ func genC29(g *Gen) {
 		g.Count("steer:routerdl")
 		g.Op("routerdl", "%d %d", v, g.R.U64()>>1)
 	}
+	for i := 0; i < 2; i++ {
+		g.Count("steer:twopass")
+		g.Op("twopass", "%d", g.R.U64()>>1)
+	}
 	for _, ms := range []int{1, 2} {
 		g.Count("steer:idlewriter")
 		g.Op("idlewriter", "%d %d", ms, g.R.U64()>>1)
@@ -509,6 +513,8 @@ func (r *c29Runner) Step(op string) string {
 		return c29RouterDeadline(f[1:])
 	case "idlewriter":
 		return c29IdleWriter(f[1:])
+	case "twopass":
+		return c29TwoPass(f[1:])
 	}
 	return "bad-op"
 }
@@ -821,6 +827,105 @@ func c29IdleWriter(f []string) string {
 	send(2, 1, 2, true)                                // first send to another channel of the shard: idle sweep
 	send(3, 0, 3, false)                               // must queue behind the append in flight
 	time.Sleep(5 * time.Millisecond)
+	close(port.gate)
+	wg.Wait()
+	sctx, cancel := context.WithTimeout(context.Background(), 25*time.Second)
+	if err := group.Stop(sctx); err != nil {
+		log.add("H.0")
+	}
+	cancel()
+	log.mu.Lock()
+	defer log.mu.Unlock()
+	return "ev=" + strings.Join(log.tok, ",")
+}
+
+// c29GateAuth is an Authorizer port (called during prepare, outside the writer lock) that holds the sends whose
+// payload number has a gate, announcing that it was reached.
+type c29GateAuth struct {
+	mu      sync.Mutex
+	gates   map[int]chan struct{}
+	reached map[int]chan struct{}
+}
+
+func (a *c29GateAuth) AuthorizeSend(_ context.Context, cmd channelappend.SendCommand) (channelappend.Decision, error) {
+	p := c29PayloadNum(cmd.Payload)
+	a.mu.Lock()
+	g, r := a.gates[p], a.reached[p]
+	delete(a.reached, p)
+	a.mu.Unlock()
+	if r != nil {
+		close(r)
+	}
+	if g != nil {
+		select {
+		case <-g:
+		case <-time.After(10 * time.Second):
+		}
+	}
+	return channelappend.Decision{Allowed: true, Reason: channelappend.ReasonSuccess}, nil
+}
+
+// c29TwoPass <seed>: one channel, four SubmitLocal calls X1..X4 from one goroutine (so their submission order is
+// 1 < 2 < 3 < 4).  X1's append is held in the port (the channel is at its in-flight limit); X2's prepare is held in
+// the authorizer while X3 is submitted (it arrives during the active pass's deactivate window); then X3's prepare
+// is held while X4 is submitted.  Exactly one pass may advance the writer, so X4 must queue behind X3.
+func c29TwoPass(f []string) string {
+	if len(f) != 1 {
+		return "bad-op"
+	}
+	if _, err := strconv.ParseUint(f[0], 10, 64); err != nil {
+		return "bad-op"
+	}
+	log := &c29Log{}
+	port := &c29Port{log: log, gateCh: 0, entered: make(chan struct{}), gate: make(chan struct{})}
+	auth := &c29GateAuth{gates: map[int]chan struct{}{2: make(chan struct{}), 3: make(chan struct{})},
+		reached: map[int]chan struct{}{2: make(chan struct{}), 3: make(chan struct{})}}
+	reached2, reached3 := auth.reached[2], auth.reached[3]
+	group := channelappend.New(channelappend.Options{LocalNodeID: 1, Appender: port, Idempotency: port, MessageID: &c29IDs{}, Authorizer: auth,
+		AuthorityShardCount: 1, AdvancePoolSize: 4, InboxCoalesceWindow: -1})
+	if err := group.Start(context.Background()); err != nil {
+		return "start-failed"
+	}
+	var wg sync.WaitGroup
+	send := func(id int) {
+		log.addAll([]string{fmt.Sprintf("I.%d.0.0.1.%d.%d", id, id, id), fmt.Sprintf("B.%d", id)})
+		target := channelappend.AuthorityTarget{ChannelID: channelappend.ChannelID{ID: "c0", Type: 2}, LeaderNodeID: 1, Epoch: 1, LeaderEpoch: 1}
+		items := []channelappend.SendBatchItem{{Context: context.Background(), Command: channelappend.SendCommand{
+			FromUID: "u1", ClientMsgNo: c29Msg(id), ChannelID: "c0", ChannelType: 2, Payload: c29Payload(id)}}}
+		fut, err := group.SubmitLocal(context.Background(), target, items)
+		if err != nil {
+			c29LogResults(log, id, []channelappend.SendBatchItemResult{{Err: err}})
+			return
+		}
+		wg.Add(1)
+		go func() {
+			defer wg.Done()
+			wctx, cancel := context.WithTimeout(context.Background(), 25*time.Second)
+			res, werr := fut.Wait(wctx)
+			cancel()
+			if werr != nil {
+				log.add("H.%d", id)
+			}
+			c29LogResults(log, id, res)
+		}()
+	}
+	wait := func(ch <-chan struct{}) {
+		select {
+		case <-ch:
+		case <-time.After(5 * time.Second):
+		}
+	}
+	send(1)
+	wait(port.entered) // X1's append is in flight and held
+	send(2)
+	wait(reached2) // a pass is preparing X2 outside the writer lock
+	send(3)        // arrives meanwhile: stays in the inbox
+	close(auth.gates[2])
+	wait(reached3) // the pass found X3 in its deactivate re-check and is now preparing it
+	send(4)
+	time.Sleep(5 * time.Millisecond) // a second pass, if the protocol allowed one, handles X4 now; never asserted on
+	close(auth.gates[3])
+	time.Sleep(2 * time.Millisecond)
 	close(port.gate)
 	wg.Wait()
 	sctx, cancel := context.WithTimeout(context.Background(), 25*time.Second)
